@@ -124,7 +124,7 @@ fn main() {
         // weakly determined plants (sigma_min/sigma_max below what Newton-Kantorovich needs for a ball of
         // this size): no clause of the property is guaranteed even in exact arithmetic; violations there
         // get their own signature suffix (reported under known finding F15)
-        let weak_all = smin_nz / smax < 0.05;
+        let weak_all = smin_nz / smax < (3.0 * pert * (xs.len() as f64).sqrt()).max(0.05);
         let wk = if weak_all { "-ill-conditioned" } else { "" };
         match solve(&sys.reqs, sys.guesses.clone(), sys.config()) {
             Err(e) => bad(format!("solve fails ({:?}) although every guess is within {pert}*scale of an exact solution", e.error), format!("fails-near-solution{wk}:{}", kinds.join("+"))),
@@ -143,7 +143,7 @@ fn main() {
                         // weakly determined: full rank, but sigma_min/sigma_max below what Newton-Kantorovich
                         // needs for a 1e-2 ball (about 2*pert*sqrt(n)): the nearby solution's basin is smaller
                         // than the ball, in exact arithmetic too; the iterates slide along the weak direction
-                        let weak = smin_nz / smax < 0.05;
+                        let weak = smin_nz / smax < (3.0 * pert * (xs.len() as f64).sqrt()).max(0.05);
                         let bucket = if under { "under-determined" } else if weak { "ill-conditioned" } else { "fully-determined" };
                         bad(format!("result is {d1:.3e} from the guess, more than 1.5 x the distance {d0:.3e} from the guess to the planted solution (kinds: {})", kinds.join("+")), format!("jumps-away-{bucket}"));
                     }
